@@ -131,6 +131,21 @@ func init() {
 			t := a[0].(Agg)
 			return in.C.Sub(in.clock(), in.term(t[1]))
 		},
+		"bytes.Index":      xBytesIndex,
+		"bytes.IndexByte":  xBytesIndexByte,
+		"internal/bytealg.IndexByte": xBytesIndexByte,
+		"internal/bytealg.IndexByteString": xBytesIndexByte,
+		"bytes.Equal": func(in *Interp, fn *ssa.Function, a []Value) Value {
+			x, y := in.sliceBytes(a[0]), in.sliceBytes(a[1])
+			if len(x) != len(y) {
+				return in.C.False
+			}
+			conj := make([]*smt.Term, len(x))
+			for i := range x {
+				conj[i] = in.C.Eq(x[i], y[i])
+			}
+			return in.C.And(conj...)
+		},
 		"os.Getenv":             func(in *Interp, fn *ssa.Function, a []Value) Value { return Str{} },
 		"math/bits.Len64":       func(in *Interp, fn *ssa.Function, a []Value) Value { return in.bitsLen(in.term(a[0])) },
 		"math/bits.Len32":       func(in *Interp, fn *ssa.Function, a []Value) Value { return in.bitsLen(in.term(a[0])) },
@@ -475,4 +490,41 @@ func xPoolPut(in *Interp, fn *ssa.Function, a []Value) Value {
 	l, _ := in.ghost[k].([]Value)
 	in.ghost[k] = append(l, a[1])
 	return nil
+}
+
+// bytes.Index(s, sep): first index of sep in s or -1 (symbolic result as an ite chain)
+func xBytesIndex(in *Interp, fn *ssa.Function, a []Value) Value {
+	s, sep := in.sliceBytes(a[0]), in.sliceBytes(a[1])
+	c := in.C
+	r := c.Const(64, ^uint64(0))
+	if len(sep) == 0 {
+		return c.Const(64, 0)
+	}
+	for i := len(s) - len(sep); i >= 0; i-- {
+		conj := make([]*smt.Term, len(sep))
+		for j := range sep {
+			conj[j] = c.Eq(s[i+j], sep[j])
+		}
+		r = c.Ite(c.And(conj...), c.Const(64, uint64(i)), r)
+	}
+	return r
+}
+
+func xBytesIndexByte(in *Interp, fn *ssa.Function, a []Value) Value {
+	c := in.C
+	var s []*smt.Term
+	switch v := a[0].(type) {
+	case Slice:
+		s = in.sliceBytes(v)
+	case Str:
+		for _, x := range in.strCells(v) {
+			s = append(s, x.(*smt.Term))
+		}
+	}
+	b := in.term(a[1])
+	r := c.Const(64, ^uint64(0))
+	for i := len(s) - 1; i >= 0; i-- {
+		r = c.Ite(c.Eq(s[i], b), c.Const(64, uint64(i)), r)
+	}
+	return r
 }
